@@ -63,10 +63,25 @@ type Cfg struct {
 // makes any); Load(Cfg2) is then started on a second goroutine and watched
 // until it has returned or sits in c.mu.Lock(); then the first call is
 // released and both loads run to completion.
+//
+// K = "mutate": the caller edits, IN PLACE and at every level of sharing, the
+// message it handed to the last accepted Load (or NewConfigWithBase) until its
+// content is that of Cfg: the Request / Target / Meta map objects stay the
+// same, existing *SubscribeRequest / *Target / *Credentials messages, the
+// Addresses slice and the nested Subscription / Path / PathElem messages are
+// edited where they are.
+//
+// K = "reload": Load of a configuration BUILT FROM THE SAME OBJECTS as that
+// message, with revision Cfg.Rev: Share 0 = the very same *Configuration,
+// Share 1 = a new Configuration with new maps whose values (request and
+// target messages) and Meta map are the same objects.
 type Op struct {
-	K    string `json:"k"`
-	Cfg  *Cfg   `json:"cfg"`
-	Cfg2 *Cfg   `json:"cfg2,omitempty"`
+	K     string `json:"k"`
+	Cfg   *Cfg   `json:"cfg"`
+	Cfg2  *Cfg   `json:"cfg2,omitempty"`
+	Share int    `json:"share,omitempty"`
+	// content of the message actually edited / loaded, projected at run time
+	actual *PCfg
 }
 
 // Case is what is written to cases_k.json and read back for replay.
@@ -156,7 +171,7 @@ func sub(mode gpb.SubscriptionList_Mode, names ...string) *gpb.SubscribeRequest 
 	}}}
 }
 
-const nReqVariants = 6
+const nReqVariants = 7
 
 func mkReq(v int) *gpb.SubscribeRequest {
 	switch v {
@@ -170,6 +185,10 @@ func mkReq(v int) *gpb.SubscribeRequest {
 		return sub(gpb.SubscriptionList_STREAM, "a", "c")
 	case 4:
 		return sub(gpb.SubscriptionList_ONCE, "a", "b")
+	case 6:
+		m := sub(gpb.SubscriptionList_STREAM, "a", "b")
+		m.GetSubscribe().Subscription = append(m.GetSubscribe().Subscription, &gpb.Subscription{Path: elem("x")})
+		return m
 	default:
 		return &gpb.SubscribeRequest{Request: &gpb.SubscribeRequest_Poll{Poll: &gpb.Poll{}}}
 	}
@@ -490,7 +509,151 @@ func overwrite(dst, src *pb.Configuration) {
 	dst.Meta = src.Meta
 }
 
-func step(r *runner, c *target.Config, held **pb.Configuration, o Op) (res Obs) {
+func editStrMap(dst, src map[string]string) map[string]string {
+	if dst == nil {
+		if len(src) == 0 {
+			return nil
+		}
+		dst = map[string]string{}
+	}
+	for k := range dst {
+		if _, ok := src[k]; !ok {
+			delete(dst, k)
+		}
+	}
+	for k, v := range src {
+		dst[k] = v
+	}
+	return dst
+}
+
+func editPath(o, n *gpb.Path) *gpb.Path {
+	if o == nil || n == nil || len(o.Elem) != len(n.Elem) || len(o.Element) != 0 || len(n.Element) != 0 {
+		return n
+	}
+	o.Origin, o.Target = n.Origin, n.Target
+	for i := range o.Elem {
+		if o.Elem[i] == nil || n.Elem[i] == nil || len(o.Elem[i].Key) != 0 || len(n.Elem[i].Key) != 0 {
+			o.Elem[i] = n.Elem[i]
+		} else {
+			o.Elem[i].Name = n.Elem[i].Name
+		}
+	}
+	return o
+}
+
+// editReq makes o's content that of n, editing nested messages where they are.
+func editReq(o, n *gpb.SubscribeRequest) {
+	os, ns := o.GetSubscribe(), n.GetSubscribe()
+	if os != nil && ns != nil {
+		os.Mode, os.Encoding, os.UpdatesOnly, os.AllowAggregation = ns.Mode, ns.Encoding, ns.UpdatesOnly, ns.AllowAggregation
+		os.Qos, os.UseModels = ns.Qos, ns.UseModels
+		os.Prefix = editPath(os.Prefix, ns.Prefix)
+		k := len(os.Subscription)
+		if len(ns.Subscription) < k {
+			k = len(ns.Subscription)
+		}
+		for i := 0; i < k; i++ {
+			a, b := os.Subscription[i], ns.Subscription[i]
+			if a == nil || b == nil {
+				os.Subscription[i] = b
+				continue
+			}
+			a.Path = editPath(a.Path, b.Path)
+			a.Mode, a.SampleInterval, a.SuppressRedundant, a.HeartbeatInterval = b.Mode, b.SampleInterval, b.SuppressRedundant, b.HeartbeatInterval
+		}
+		os.Subscription = append(os.Subscription[:k], ns.Subscription[k:]...)
+		o.Extension = n.Extension
+	}
+	if !proto.Equal(o, n) {
+		proto.Reset(o)
+		proto.Merge(o, n)
+	}
+}
+
+func editTgt(o, n *pb.Target) {
+	k := len(o.Addresses)
+	if len(n.Addresses) < k {
+		k = len(n.Addresses)
+	}
+	for i := 0; i < k; i++ {
+		o.Addresses[i] = n.Addresses[i]
+	}
+	o.Addresses = append(o.Addresses[:k], n.Addresses[k:]...)
+	o.Request, o.Dialer = n.Request, n.Dialer
+	if o.Credentials != nil && n.Credentials != nil {
+		o.Credentials.Username, o.Credentials.Password, o.Credentials.PasswordId = n.Credentials.Username, n.Credentials.Password, n.Credentials.PasswordId
+	} else {
+		o.Credentials = n.Credentials
+	}
+	o.Meta = editStrMap(o.Meta, n.Meta)
+}
+
+// deepEdit turns dst into src by editing dst and everything it refers to in place.
+func deepEdit(dst, src *pb.Configuration) {
+	dst.Revision, dst.InstanceId = src.Revision, src.InstanceId
+	dst.Meta = editStrMap(dst.Meta, src.Meta)
+	if dst.Request == nil && len(src.Request) > 0 {
+		dst.Request = map[string]*gpb.SubscribeRequest{}
+	}
+	for k := range dst.Request {
+		if _, ok := src.Request[k]; !ok {
+			delete(dst.Request, k)
+		}
+	}
+	for k, nv := range src.Request {
+		if ov, ok := dst.Request[k]; ok && ov != nil && nv != nil {
+			editReq(ov, nv)
+		} else {
+			dst.Request[k] = nv
+		}
+	}
+	if dst.Target == nil && len(src.Target) > 0 {
+		dst.Target = map[string]*pb.Target{}
+	}
+	for k := range dst.Target {
+		if _, ok := src.Target[k]; !ok {
+			delete(dst.Target, k)
+		}
+	}
+	for k, nv := range src.Target {
+		if ov, ok := dst.Target[k]; ok && ov != nil && nv != nil {
+			editTgt(ov, nv)
+		} else {
+			dst.Target[k] = nv
+		}
+	}
+}
+
+func samePCfg(a, b PCfg) bool {
+	x, _ := json.Marshal(a)
+	y, _ := json.Marshal(b)
+	return string(x) == string(y)
+}
+
+// sharing builds the message of a "reload" from the objects of held.
+func sharing(held *pb.Configuration, rev int64, share int) *pb.Configuration {
+	if share == 0 {
+		held.Revision = rev
+		return held
+	}
+	m := &pb.Configuration{Revision: rev, InstanceId: held.InstanceId, Meta: held.Meta}
+	if held.Request != nil {
+		m.Request = map[string]*gpb.SubscribeRequest{}
+		for k, v := range held.Request {
+			m.Request[k] = v
+		}
+	}
+	if held.Target != nil {
+		m.Target = map[string]*pb.Target{}
+		for k, v := range held.Target {
+			m.Target[k] = v
+		}
+	}
+	return m
+}
+
+func step(r *runner, c *target.Config, held **pb.Configuration, o *Op) (res Obs) {
 	defer func() {
 		if p := recover(); p != nil {
 			res = Obs{Kind: "panic", Msg: fmt.Sprint(p)}
@@ -505,17 +668,40 @@ func step(r *runner, c *target.Config, held **pb.Configuration, o Op) (res Obs) 
 			*held = m
 		}
 		return Obs{Kind: "load", Err: err != nil, Calls: r.take(), Cur: projCfg(c.Current())}
+	case "reload":
+		r.take()
+		var m *pb.Configuration
+		if *held == nil {
+			m = mkCfg(o.Cfg)
+		} else {
+			m = sharing(*held, o.Cfg.Rev, o.Share)
+		}
+		a := projCfg(m)
+		o.actual = &a
+		err := c.Load(m)
+		if err == nil {
+			*held = m
+		}
+		return Obs{Kind: "load", Err: err != nil, Calls: r.take(), Cur: projCfg(c.Current())}
 	case "mutate":
 		r.take()
+		note := ""
 		if *held != nil && o.Cfg != nil {
-			overwrite(*held, mkCfg(o.Cfg))
+			want := mkCfg(o.Cfg)
+			deepEdit(*held, want)
+			if !samePCfg(projCfg(*held), projCfg(want)) {
+				overwrite(*held, mkCfg(o.Cfg)) // not reachable with the pools in use; kept as a guard
+				note = "mutate-fallback"
+			}
+			a := projCfg(*held)
+			o.actual = &a
 		}
 		if len(r.take()) != 0 {
 			panic("handler called without a Load")
 		}
-		return Obs{Kind: "cur", Cur: projCfg(c.Current())}
+		return Obs{Kind: "cur", Cur: projCfg(c.Current()), Note: note}
 	case "par":
-		return parStep(r, c, held, o)
+		return parStep(r, c, held, *o)
 	}
 	panic("unknown op " + o.K)
 }
@@ -575,8 +761,8 @@ func runCaseInner(c *Case) {
 		c.Cur0 = &PCfg{Rev: -424242}
 	}
 	out := make([]Obs, 0, len(c.Ops))
-	for _, o := range c.Ops {
-		out = append(out, step(r, cfg, &held, o))
+	for i := range c.Ops {
+		out = append(out, step(r, cfg, &held, &c.Ops[i]))
 		c.Obs = out
 	}
 }
@@ -647,7 +833,13 @@ func opTerm(n *vh.Names, o Op) string {
 		if o.Cfg == nil {
 			return "OLoad None" // not generated; a mutate without content is nothing
 		}
+		if o.actual != nil {
+			return "OMutate " + pcfgBare(n, *o.actual)
+		}
 		return "OMutate " + pcfgBare(n, inCfg(o.Cfg))
+	}
+	if o.actual != nil {
+		return "OLoad " + pcfgTerm(n, *o.actual)
 	}
 	return "OLoad " + pcfgTerm(n, inCfg(o.Cfg))
 }
@@ -870,6 +1062,81 @@ func validEdit1(r *vh.Rand, c *Cfg) string {
 	}
 }
 
+// innerEdit changes something INSIDE a message that stays in place: the
+// content of a request, a target's addresses or its other fields.
+func innerEdit(r *vh.Rand, c *Cfg) string {
+	want := map[string]bool{"edit:request-content": true, "edit:target-addresses": true, "edit:target-other": true, "edit:swap-requests": true}
+	for try := 0; try < 30; try++ {
+		t := cloneCfg(c)
+		if l := validEdit1(r, t); want[l] {
+			*c = *t
+			return l
+		}
+	}
+	return validEdit(r, c)
+}
+
+// aliasDeep: for each kind of in-place edit at each level of sharing: load
+// revision 1, edit in place, load revision 2 built from the same objects (the
+// same message / a new configuration sharing the request and target objects /
+// a fresh message), then one more fresh load.
+func aliasDeep() []Case {
+	base := func() *Cfg {
+		return &Cfg{Rev: 1,
+			Reqs: []Req{{K: "r1", V: 2}, {K: "r2", V: 3}},
+			Tgts: []Tgt{
+				{K: "t1", Addrs: []string{"a:1", "a:2"}, Req: "r1", O: 3},
+				{K: "t2", Addrs: []string{"b:1"}, Req: "r1", O: 4},
+				{K: "t3", Addrs: []string{"c:1"}, Req: "r2", O: 0}}}
+	}
+	edits := []func(*Cfg){
+		func(c *Cfg) { c.Reqs[0].V = 3 },                            // PathElem name inside a shared request
+		func(c *Cfg) { c.Reqs[0].V = 4 },                            // SubscriptionList mode
+		func(c *Cfg) { c.Reqs[0].V = 6 },                            // Subscription appended to the nested list
+		func(c *Cfg) { c.Reqs[0].V = 5 },                            // request replaced wholesale (oneof changes)
+		func(c *Cfg) { c.Reqs[1].V = 6 },                            // the other request
+		func(c *Cfg) { c.Reqs[0].V, c.Reqs[1].V = 3, 2 },            // contents swapped
+		func(c *Cfg) { c.Tgts[0].Addrs[0] = "z:9" },                 // element of the Addresses slice
+		func(c *Cfg) { c.Tgts[0].Addrs = c.Tgts[0].Addrs[:1] },      // slice shortened
+		func(c *Cfg) { c.Tgts[1].Addrs = append(c.Tgts[1].Addrs, "b:2") }, // slice extended
+		func(c *Cfg) { c.Tgts[0].O = 6 },                            // Credentials field
+		func(c *Cfg) { c.Tgts[1].O = 5 },                            // value in the target's Meta map
+		func(c *Cfg) { c.Tgts[2].O = 1 },                            // scalar field of the target
+		func(c *Cfg) { c.Tgts[1].Req = "r2" },                       // re-pointed
+		func(c *Cfg) { c.X = 2 },                                    // configuration Meta map
+		func(c *Cfg) { c.Tgts = c.Tgts[:2] },                        // entry deleted from the target map
+		func(c *Cfg) { c.Tgts = append(c.Tgts, Tgt{K: "t4", Addrs: []string{"d:1"}, Req: "r2"}) },
+		func(c *Cfg) { c.Reqs = append(c.Reqs, Req{K: "r3", V: 4}); c.Tgts[2].Req = "r3" },
+		func(c *Cfg) {},                                             // nothing edited
+	}
+	var out []Case
+	for _, ed := range edits {
+		for kind := 0; kind < 3; kind++ {
+			for _, rev2 := range []int64{2, 1} {
+				m := base()
+				ed(m)
+				l := cloneCfg(m)
+				l.Rev = rev2
+				ops := []Op{{K: "load", Cfg: base()}, {K: "mutate", Cfg: m}}
+				switch kind {
+				case 0:
+					ops = append(ops, Op{K: "reload", Cfg: l, Share: 0})
+				case 1:
+					ops = append(ops, Op{K: "reload", Cfg: l, Share: 1})
+				default:
+					ops = append(ops, Op{K: "load", Cfg: l})
+				}
+				f := cloneCfg(m)
+				f.Rev = 3
+				f.Tgts[0].O = 1
+				ops = append(ops, Op{K: "load", Cfg: f})
+				out = append(out, Case{Family: "alias-deep", Ops: ops})
+			}
+		}
+	}
+	return out
+}
+
 // invalidEdit makes a configuration invalid (when it can).
 func invalidEdit(r *vh.Rand, c *Cfg) string {
 	if len(c.Tgts) == 0 {
@@ -966,21 +1233,47 @@ func randHistory(r *vh.Rand, h *vh.Meta, mutate bool) Case {
 			m := cloneCfg(w)
 			k := 1 + r.Intn(2)
 			for j := 0; j < k; j++ {
-				h.Hist("mutate:" + validEdit(r, m))
+				if r.Chance(2, 3) {
+					h.Hist("mutate:" + innerEdit(r, m))
+				} else {
+					h.Hist("mutate:" + validEdit(r, m))
+				}
 			}
-			if r.Chance(1, 2) {
-				m.Rev++
-			}
-			if r.Chance(1, 6) {
+			valid := true
+			if r.Chance(1, 8) {
 				h.Hist("mutate:" + invalidEdit(r, m))
 				for j := range m.Tgts { // nil map values are kept out of in-place edits
 					m.Tgts[j].Nil = false
 				}
+				valid = false
+			}
+			if r.Chance(1, 2) {
+				m.Rev++
 			}
 			c.Ops = append(c.Ops, Op{K: "mutate", Cfg: m})
-			if r.Chance(1, 2) {
-				// load the very same content again (the caller re-loads its edited message)
-				c.Ops = append(c.Ops, Op{K: "load", Cfg: cloneCfg(m)})
+			// usually the caller then loads what it edited: a fresh message of the same
+			// content, the very same message, or a new configuration built from the
+			// same request / target objects -- mostly with a higher revision
+			kind := r.Pick(2, 3, 3, 4)
+			if kind > 0 {
+				l := cloneCfg(m)
+				if r.Chance(3, 4) {
+					l.Rev = w.Rev + 1
+				}
+				switch kind {
+				case 1:
+					c.Ops = append(c.Ops, Op{K: "load", Cfg: l})
+					h.Hist("mutate:then-load-fresh")
+				case 2:
+					c.Ops = append(c.Ops, Op{K: "reload", Cfg: l, Share: 0})
+					h.Hist("mutate:then-reload-same-message")
+				default:
+					c.Ops = append(c.Ops, Op{K: "reload", Cfg: l, Share: 1})
+					h.Hist("mutate:then-reload-shared-objects")
+				}
+				if valid && l.Rev > w.Rev {
+					w = l
+				}
 			}
 			continue
 		}
@@ -1186,7 +1479,7 @@ func nontrivial(c Case) bool {
 				accepted = true
 			}
 		}
-		if o.K == "load" && r.Kind == "load" {
+		if (o.K == "load" || o.K == "reload") && r.Kind == "load" {
 			if !r.Err && accepted && len(r.Calls) > 0 {
 				return true
 			}
@@ -1259,6 +1552,9 @@ func (e *emitter) add(c Case) {
 			}
 		case o.K == "mutate":
 			e.meta.Hist("op:mutate")
+			if r.Note != "" {
+				e.meta.Hist(r.Note)
+			}
 		case r.Err:
 			e.meta.Hist("load:rejected")
 		default:
@@ -1329,7 +1625,7 @@ func main() {
 	if f := flag.Lookup("stderrthreshold"); f != nil {
 		f.Value.Set("FATAL")
 	}
-	meta := vh.NewMeta("corpus cases; every ordered pair (A, B) of configurations over two target names x two request names (target: absent / ->r1 addr a / ->r1 addr b / ->r2 addr a; request: absent / content 1 / content 2) loaded as revisions 1 and 2 (quick: A valid; thorough: all A over a 225-configuration universe, for valid A also revisions 2-then-2 and 2-then-1, plus A as base); every ordered pair over one request name whose value is absent / nil pointer / empty message / a subscription and two targets using it or absent (256); seeded random histories of 2..7 loads evolving one configuration by 0..3 edits per load (add/remove/edit target, re-point, edit/rename/swap/add/remove request, nil request pointer, other fields), invalid variants, nil loads, revision deltas {+1,0,-1,+5,-7,+-2^40}, with and without a (valid/invalid/nil) base; in every fourth history the caller also edits, in place, the message it loaded last (and often re-loads it); 'concurrent' cases: two overlapping Loads under a forced schedule (the first parked inside its first handler call while the second is issued from another goroutine and watched until it returned or sits in c.mu.Lock()), over every ordered pair of the 16-configuration nil-pointer universe as revisions (1,2) and (2,1) and over seeded random pairs (second load an edit of the first / of the base, revision above / equal / below, invalid, nil) with optional sequential loads before and after. distinct = distinct (base, operations); non-trivial = some accepted load on a non-nil current configuration that produced at least one handler call")
+	meta := vh.NewMeta("corpus cases; every ordered pair (A, B) of configurations over two target names x two request names (target: absent / ->r1 addr a / ->r1 addr b / ->r2 addr a; request: absent / content 1 / content 2) loaded as revisions 1 and 2 (quick: A valid; thorough: all A over a 225-configuration universe, for valid A also revisions 2-then-2 and 2-then-1, plus A as base); every ordered pair over one request name whose value is absent / nil pointer / empty message / a subscription and two targets using it or absent (256); seeded random histories of 2..7 loads evolving one configuration by 0..3 edits per load (add/remove/edit target, re-point, edit/rename/swap/add/remove request, nil request pointer, other fields), invalid variants, nil loads, revision deltas {+1,0,-1,+5,-7,+-2^40}, with and without a (valid/invalid/nil) base; in every fourth history the caller also edits the message it loaded last IN PLACE AT EVERY LEVEL OF SHARING (same map objects, request / target / credentials messages, Addresses slice, nested Subscription / Path / PathElem messages edited where they are) and then usually loads a higher revision built from the same objects (the same message, or a new configuration sharing the request and target objects) or a fresh message; 'alias-deep': 18 kinds of in-place edit x {same message, shared objects, fresh} x revision {2, 1} after a fixed first load; 'concurrent' cases: two overlapping Loads under a forced schedule (the first parked inside its first handler call while the second is issued from another goroutine and watched until it returned or sits in c.mu.Lock()), over every ordered pair of the 16-configuration nil-pointer universe as revisions (1,2) and (2,1) and over seeded random pairs (second load an edit of the first / of the base, revision above / equal / below, invalid, nil) with optional sequential loads before and after. distinct = distinct (base, operations); non-trivial = some accepted load on a non-nil current configuration that produced at least one handler call")
 	e := &emitter{dir: o.Out, cf: vh.NewCaseFile(), meta: meta, limit: 1500}
 
 	if o.Replay != "" {
@@ -1398,6 +1694,9 @@ func main() {
 			ca.Rev, cb.Rev = 1, 2
 			e.add(Case{Family: "pairs-nil", Ops: []Op{{K: "load", Cfg: ca}, {K: "load", Cfg: cb}}})
 		}
+	}
+	for _, c := range aliasDeep() {
+		e.add(c)
 	}
 	// two overlapping loads: every ordered pair of the nil-pointer universe, as
 	// revisions (1, 2) and (2, 1)
